@@ -5,7 +5,7 @@ import time
 from lib import scen as S, runner
 from lib.common import build_props
 
-GROUPS = ['GenAsync', 'GenStruct']
+GROUPS = ['GenAsync', 'GenStruct', 'GenObserve']
 SHAPES = ['ValueError', 'CustomError', 'AttrError', 'SystemExit', 'KeyboardInterrupt', 'Cancelled', 'BaseExc',
           'Unpicklable', 'LambdaAttr', 'LocalClass', 'NestedArgs']
 LIMIT = {'fork': 12, 'threading': 12, 'forkserver': 20, 'spawn': 25}
